@@ -22,15 +22,17 @@ BOUNDS = {
     'quick': {'items': '<= 3', 'metadata keys': "pool {'a','b'} (+ data key, + reserved 'index')",
               'values': 'arbitrary hashable (symbolic, equality only)', 'data_key': ["'results'", "'d'"],
               'query': 'per key: absent or a symbolic value; include/exclude: any subsets of the pool + a key no item has',
-              'chains': 'single operation (filter_by, select_by, merge, keys/available_values)'},
+              'chains': 'single operation (filter_by, select_by, merge, keys/available_values)',
+              'long lists': '10 items, one key with two concrete values, every subset of matching items (order of the selection)'},
     'thorough': {'items': '<= 4 (3 for chains)', 'metadata keys': "pool {'a','b'} (+ data key, + reserved 'index')",
                  'values': 'arbitrary hashable (symbolic, equality only)', 'data_key': ["'results'", "'d'"],
-                 'query': 'as quick', 'chains': 'filter_by then filter_by / merge / select_by (2 steps)'},
+                 'query': 'as quick', 'chains': 'filter_by then filter_by / merge / select_by (2 steps)',
+                 'long lists': '10 and 13 items, one key with two concrete values, every subset of matching items'},
 }
 ASSUMPTIONS = ["metadata values are modelled by SKey: constant hash, symbolic ==; the reserved key 'index' is not used as metadata",
                'data objects are unhashable lists (as real datasets are), identity is what is compared',
                'counterexamples are replayed with small integers as values']
-OUTSIDE = ['more than 4 items / 2 metadata keys', 'values whose == is not an equivalence relation',
+OUTSIDE = ['more than 4 items with symbolic values / 2 metadata keys; more than 13 items with concrete values', 'values whose == is not an equivalence relation',
            "queries on the reserved key 'index'"]
 EXPLANATION = ('bounded symbolic execution (symrun + z3) of the real Browser/Index code with symbolic-equality keys; '
                'result items, order, data identity, globals, data_key, exceptions and immutability decided per path')
@@ -149,7 +151,37 @@ def _decided(m):
     return bool(m)
 
 
+def make_long_harness(n, data_key):
+    """many items (more than the 8 slots of a small hash table), one metadata key with two values: WHICH items carry
+    the queried value is solver-chosen (one path per subset); the selection must come back in list order, also from a
+    merged browser and from a filter of a filter"""
+    def harness(ex):
+        from valjean.eponine.browser import Browser
+        hit = [ex.flag(f'item{i}-matches') for i in range(n)]
+        items = [{'a': 'x' if h else 'y', 'n': i % 2, data_key: [f'data{i}']} for i, h in enumerate(hit)]
+        datas = [it[data_key] for it in items]
+        br = Browser(items, data_key=data_key)
+        sn = _snap_browser(br)
+        want = [d for d, h in zip(datas, hit) if h]
+        sub = br.filter_by(a='x')
+        ex.check([c[data_key] for c in sub.content] == want and all(g is w for g, w in zip([c[data_key] for c in sub.content], want)),
+                 'long:filter_by-returns-the-matching-items-in-list-order')
+        sub2 = sub.filter_by(n=1)
+        want2 = [d for i, (d, h) in enumerate(zip(datas, hit)) if h and i % 2]
+        ex.check([c[data_key] for c in sub2.content] == want2, 'long:filter_by-of-filter_by-in-list-order')
+        ex.check([c[data_key] for c in br.filter_by(include=('a',), exclude=('zz',), n=0).content] == [d for i, d in enumerate(datas) if i % 2 == 0],
+                 'long:include-exclude-in-list-order')
+        half = n // 2
+        mg = Browser(items[:half], data_key=data_key).merge(Browser(items[half:], data_key=data_key))
+        ex.check([c[data_key] for c in mg.filter_by(a='x').content] == want, 'long:filter_by-of-a-merged-browser-in-list-order')
+        ex.check(_same_browser(br, sn), 'long:original-browser-unchanged')
+    return harness
+
+
 def make_harness(n, data_key, mode, n2=1, pool='ab', incexc='full', globs_on=False):
+    if mode == 'long':
+        return make_long_harness(n, data_key)
+
     def harness(ex):
         global POOL, INCEXC
         POOL, INCEXC = list(pool), incexc
@@ -257,17 +289,21 @@ def jobs(tier):
         plan = [(0, 'keys', 'ab', 'full'), (2, 'keys', 'ab', 'full'), (3, 'keys', 'a', 'full'),
                 (0, 'filter', 'ab', 'full'), (1, 'filter', 'ab', 'full'), (2, 'filter', 'ab', 'few'),
                 (3, 'filter', 'a', 'few'), (0, 'select', 'ab', 'few'), (2, 'select', 'ab', 'few'),
-                (3, 'select', 'a', 'few'), (1, 'merge', 'ab', 'few'), (2, 'merge', 'a', 'few'), (2, 'chain', 'a', 'few')]
+                (3, 'select', 'a', 'few'), (1, 'merge', 'ab', 'few'), (2, 'merge', 'a', 'few'), (2, 'chain', 'a', 'few'),
+                (10, 'long', 'a', 'few')]
     else:
         plan = [(0, 'keys', 'ab', 'full'), (2, 'keys', 'ab', 'full'), (3, 'keys', 'ab', 'full'), (4, 'keys', 'a', 'full'),
                 (0, 'filter', 'ab', 'full'), (1, 'filter', 'ab', 'full'), (2, 'filter', 'ab', 'full'),
                 (3, 'filter', 'ab', 'few'), (3, 'filter', 'a', 'full'), (4, 'filter', 'a', 'few'),
                 (0, 'select', 'ab', 'full'), (2, 'select', 'ab', 'full'), (3, 'select', 'ab', 'few'), (4, 'select', 'a', 'few'),
-                (0, 'merge', 'ab', 'few'), (1, 'merge', 'ab', 'few'), (2, 'merge', 'ab', 'few'), (3, 'merge', 'a', 'few'),
-                (2, 'chain', 'ab', 'few'), (3, 'chain', 'a', 'few')]
+                (0, 'merge', 'ab', 'few'), (1, 'merge', 'ab', 'few'), (2, 'merge', 'ab', 'few'), (2, 'merge', 'a', 'few'),
+                (3, 'merge', 'a', 'few'),
+                (2, 'chain', 'ab', 'few'), (3, 'chain', 'a', 'few'), (10, 'long', 'a', 'few'), (13, 'long', 'a', 'few')]
     for i, (n, mode, pool, ie) in enumerate(plan):
         for dk in ('results', 'd'):
-            n2 = 2 if (mode == 'merge' and n == 2 and tier == 'thorough') else 1
+            n2 = 2 if (mode == 'merge' and n == 2 and tier == 'thorough' and pool == 'a') else 1
+            if mode == 'long' and dk == 'd' and n > 10:
+                continue
             out.append((f'{mode}-n{n}-{pool}-{ie}-{dk}', _job,
                         dict(n=n, data_key=dk, mode=mode, n2=n2, pool=pool, incexc=ie, globs_on=bool((i + (dk == 'd')) % 2),
                              timeout_ms=t)))
